@@ -44,6 +44,8 @@ def yflow(v):
     if 'd' in v:
         return '{' + ', '.join(f'{yflow(k)}: {yflow(x)}' for k, x in v['d']) + '}'
     if 'py' in v:
+        if v.get('iter'):       # a one-shot iterator over the value: to a loop it is the value's items
+            return '!py ' + json.dumps('iter(' + pv.render_expr(v['py']) + ')')
         return '!py ' + json.dumps(pv.render_expr(v['py']))
     if 'sic' in v:
         return '!sic ' + json.dumps(v['sic'])
@@ -259,7 +261,15 @@ def run_case(case, extra=None):
     from pypyr.errors import get_error_name
 
     import logging
-    logging.disable(logging.CRITICAL)
+    if case.get('debuglog'):
+        # everything is logged (to nowhere): what a run does must not depend on the log level
+        logging.disable(logging.NOTSET)
+        root = logging.getLogger()
+        root.setLevel(logging.DEBUG)
+        if not any(isinstance(h, logging.NullHandler) for h in root.handlers):
+            root.addHandler(logging.NullHandler())
+    else:
+        logging.disable(logging.CRITICAL)
     pv.register_asts(case)
     canon = pv.Canon()
     canon.ids[id(vstate.MISSING)] = -1
